@@ -32,7 +32,7 @@ def main():
         meta_path = os.path.join(seed, "meta.json")
         meta = json.load(open(meta_path)) if os.path.exists(meta_path) else {}
         patch = os.path.join(seed, "patch.diff"); demo = os.path.join(seed, "demo.rs")
-        sh("git checkout -- . && rm -rf tests", cwd=WT)
+        sh("git checkout -- . && git clean -fdq -- src benches && rm -rf tests", cwd=WT)
         res = {}
         if os.path.exists(demo):
             os.makedirs(os.path.join(WT, "tests"), exist_ok=True)
@@ -54,7 +54,7 @@ def main():
                 r = sh("cargo test --offline --test demo 2>&1", cwd=WT)
                 res["demo_fails_with_change"] = (not tests_green(r.stdout))
                 res["demo_output_tail"] = r.stdout.strip().splitlines()[-4:]
-        sh("git checkout -- . && rm -rf tests", cwd=WT)
+        sh("git checkout -- . && git clean -fdq -- src benches && rm -rf tests", cwd=WT)
         meta["confirmed"] = res
         meta["confirm_commands"] = ["git worktree add /tmp/confirm-wt HEAD", "cp demo.rs tests/demo.rs; cargo test --offline --test demo  (clean HEAD)", "git apply patch.diff; cargo test --offline; cargo test --offline --test demo"]
         ok = res.get("patch_applies") and res.get("repo_tests_green_with_change") and res.get("demo_fails_with_change", True) and res.get("demo_passes_without_change", True)
